@@ -11,6 +11,7 @@ L4 what strict=True accepts is within capacity with explicit hydrogens counted (
    accepted atom is not one the decoder refuses for its hydrogens
 L5 the decoder's atom-symbol reader drops no written field: every capture group that is non-empty on a path feeds a field
    of the atom built on that path
+L6 a written number is the number read (both atom readers): field == +/- int(digits) on every path where digits are parsed
 Not decided: encoder(decoder(encoder(s))) == encoder(s) beyond atom spelling (traversal orders).
 """
 import ast
@@ -172,6 +173,7 @@ def run(ctx, rep):
     # L5: what the decoder reads back from an atom symbol keeps every written field (isotope 0, H0 ... included), so the
     # decoded SMILES re-encodes to the same symbol
     symlang.check_reader_keeps_groups(ctx, rep, "L5")
+    symlang.check_parsed_numerals(ctx, rep, "L6")
     rep.analysed.update({"abstract_reader_atoms": enc["inner"]["n_atoms"], "decoder_atom_dfa_states": len(dec["dfa"].trans),
                          "encoder_atom_dfa_states": len(enc["dfa"].trans)})
 
